@@ -139,7 +139,10 @@ ASSUMPTIONS = [
     'the returned field; metricLp_spd takes the SPD-ness of the limiter output as a hypothesis (per vertex it is '
     'limitAspectRatio_spd / limitAspectRatio2_spd_embedded) and bufferAtComplexity_spd positive eigenvalues from the '
     'decompositions ref_metric_buffer takes (BufLoopOk); the ranks statement of the pipeline is tied end to end only '
-    '(cli_multiscale_mpi)',
+    '(cli_multiscale_mpi); the in-process oracle of metricpipe_stages states exact positive definiteness of the real '
+    'ref_metric_lp output for aspect-ratio limits 1..1e3 only: with the default limit (-1: eigenvalue ratio up to 1e12) and '
+    'singular Hessians the returned tensor can be indefinite at 1e-9 relative (rounding in the gradation intersections; '
+    'candidate finding findings/metricpipe-default-ar-conditioning, model and C agree bit for bit there)',
     'Hessian reconstruction (ref_recon_hessian: L2 projection / k-exact) is outside this property (C19); the abs-value '
     'and floor theorems need only orthonormal eigenvectors from ref_matrix_diag_m (proved), not an exact decomposition; '
     'a diag_m failure status is returned as is',
